@@ -15,11 +15,20 @@ from pyvc import scene as sc
 EXC_VALIDATION = ("TypeError", "ValueError")
 EXC_IO = ("OSError",)
 
-is_mapping = F("is_mapping", Val, BoolS)      # classification by the (verified, C19) type resolvers
-is_sequence = F("is_sequence", Val, BoolS)
+
+
+def is_mapping(v):
+    """What `_mapping_resolver.get_type(v) == "MAPPING"` computes (resolver contract, C19)."""
+    return smt.isinstance_(v, "Mapping")
+
+
+def is_sequence(v):
+    """What `_sequence_resolver.get_type(v) == "SEQUENCE"` computes, numpy absent (C19)."""
+    return z3.And(smt.isinstance_(v, "Sequence"), z3.Not(smt.isinstance_(v, "str")))
+
+
 validator_ok = F("validator_ok", IntS, Val, BoolS)   # validator v accepts the value (defined by C11's contracts)
 serialisable = F("serialisable", Val, BoolS)         # json.dumps / the client accepts the plain value [E-JSON]
-has_lv, listview = bs.has_lv, bs.listview
 convert_numpy = F("convert_numpy", Val, Val)
 
 
@@ -69,9 +78,9 @@ def buffered_term(cx, st, root):
     return z3.Or(bobj > 0, bctx > 0)
 
 
-def iv(cx, st, t):
-    """[N-VIEW] plain image of a value that may be / contain synced nodes."""
-    return z3.If(smt.is_VRef(t), st.sel("View", Val.addr(t)), z3.If(has_lv(t), listview(t), t))
+def iv(cx, st, v):
+    """[N-VIEW] plain image of a value that may be / contain synced nodes (see Intrinsics.iv)."""
+    return cx.eng.intr.iv(st, v)
 
 
 # ----------------------------------------------------------------------------------------------
@@ -111,7 +120,7 @@ class FromBaseContract(Contract):
             pre, post = c.pre, c.post
             out = [
                 ("C16:fresh", z3.And(smt.is_VRef(r), a >= pre.g["Alloc"], post.g["Alloc"] > a)),
-                ("C02:view", post.sel("View", a) == bs.plain(iv(c, pre, d))),
+                ("C02:view", post.sel("View", a) == bs.plain(iv(c, pre, c.b["data"]))),
                 ("frame:old-objects", below_alloc_unchanged(c, ("View", "Cell"))),
                 ("C18:family", family_of(c, a, d)),
             ]
@@ -148,7 +157,7 @@ def interest_addrs(st):
     for v in st.statics.values():
         if isinstance(v, Z) and v.hint in ("dict", "list"):
             out.append(Val.addr(v.term))
-    for t in st.ghost.get("interest", []):
+    for t in st.ghost.get("skolem_addr", []):
         out.append(t)
     return out
 
@@ -163,9 +172,47 @@ def below_alloc_unchanged(c, names):
             for n in names:
                 cl.append(z3.Implies(x < pre.g["Alloc"], z3.Select(post.g[n], x) == z3.Select(pre.g[n], x)))
         return smt.and_(cl)
-    x0 = smt.fresh("skolem_addr", IntS)
+    x0 = pre.ghost["skolem_addr"][0]
     return z3.Implies(x0 < pre.g["Alloc"],
                       smt.and_([z3.Select(post.g[n], x0) == z3.Select(pre.g[n], x0) for n in names]))
+
+
+RES_STATE = ("Res", "Wr", "FS", "Meta", "FsTick")
+
+
+def res_mod(c):
+    """A save may touch the target resource and (JSON back end, atomic mode) a temporary file next to it."""
+    return [("g", n) for n in RES_STATE if n in c.pre.g]
+
+
+def other_resources_unchanged(c, rid):
+    """forall p != rid that exists before the call: content, bytes and write count of p are unchanged.
+    Assumed: instantiated at the resources of the known roots.  Proved: for one Skolem resource id."""
+    pre, post = c.pre, c.post
+
+    def same(p):
+        cl = [post.sel("Res", p) == pre.sel("Res", p), post.sel("Wr", p) == pre.sel("Wr", p)]
+        if "FS" in pre.g:
+            cl.append(post.sel("FS", p) == pre.sel("FS", p))
+            cl.append(post.sel("Meta", p) == pre.sel("Meta", p))
+        return smt.and_(cl)
+
+    def existed(p):
+        e = pre.sel("Res", p) != VAbsent
+        if "FS" in pre.g:
+            e = z3.Or(e, pre.sel("FS", p) != VAbsent)
+        return e
+    if c.mode == "assume":
+        cl = []
+        for a, rec in pre.objs.items():
+            if rec.tag.startswith("node") and not isinstance(rec.fields.get("_root"), ObjV):
+                p = sc.resid(c.eng, pre, ObjV(a))
+                cl.append(z3.Implies(z3.And(p != rid, existed(p)), same(p)))
+        for p in pre.ghost.get("skolem_res", []):
+            cl.append(z3.Implies(z3.And(p != rid, existed(p)), same(p)))
+        return smt.and_(cl)
+    p0 = pre.ghost["skolem_res"][0]
+    return z3.Implies(z3.And(p0 != rid, existed(p0)), same(p0))
 
 
 class FromBaseMapContract(Contract):
@@ -182,12 +229,13 @@ class FromBaseMapContract(Contract):
             xs = to_val(c.b["xs"])
             r = to_val(c.result)
             return [
-                ("lifted:view", z3.And(has_lv(r), z3.Not(smt.is_VRef(r)), listview(r) == bs.plain(iv(c, c.pre, xs)))),
+                ("lifted:not-a-node", z3.Not(smt.is_VRef(r))),
                 ("frame:old-objects", below_alloc_unchanged(c, ("View", "Cell"))),
                 ("alloc", c.post.g["Alloc"] >= c.pre.g["Alloc"]),
             ]
         return [Case("map", "normal", modifies=mod, post=post,
-                     result=lambda c: Z(smt.fresh("fblist"), None, {"fresh_container": True}))]
+                     result=lambda c: Z(smt.fresh("fblist"), None,
+                                        {"fresh_container": True, "lv": bs.plain(iv(c, c.pre, c.b["xs"]))}))]
 
 
 class UpdateContract(Contract):
@@ -212,7 +260,7 @@ class UpdateContract(Contract):
         def post_ok(c):
             i = info(c)
             pre, post = c.pre, c.post
-            out = [("C02:matches", pyeq(post.sel("View", i["n"]), iv(c, pre, dval(c)))),
+            out = [("C02:matches", pyeq(post.sel("View", i["n"]), iv(c, pre, c.b["data"]))),
                    ("alloc", post.g["Alloc"] >= pre.g["Alloc"])]
             out.extend(tree_consistency(c, i))
             return out
@@ -282,7 +330,7 @@ class ToBaseContract(Contract):
             i = node(c, c.pre, c.b["self"])
             r = to_val(c.result)
             return [("C16:result-is-view", r == c.pre.sel("View", i["n"])),
-                    ("C16:plain", z3.And(z3.Not(smt.is_VRef(r)), z3.Not(has_lv(r))))]
+                    ("C16:plain", z3.Not(smt.is_VRef(r)))]
         return [Case("plain", "normal", post=post,
                      result=lambda c: Z(smt.fresh("plainview"), None, {"fresh_container": True, "plain": True}))]
 
@@ -298,14 +346,15 @@ class LoadFromResourceContract(Contract):
             i = node(c, c.pre, c.b["self"])
             cur = c.pre.sel("Res", i["rid"])
             r = to_val(c.result)
-            return [("C02:content", r == z3.If(cur == VAbsent, VNone, cur)),
-                    ("res-not-none", cur != VNone)]
+            return [("C02:content", r == z3.If(cur == VAbsent, VNone, cur))]
 
         def after(c):
             c.post.event("io-fault", "_load_from_resource")
         return [
-            Case("read", "normal", post=post),
-            Case("fault", "raise", exc=("OSError", "ValueError"), post=lambda c: (after(c), [])[1]),
+            Case("read", "normal", post=post,
+                 result=lambda c: Z(smt.fresh("loaded"), None, {"plain": True, "fresh_container": True})),
+            Case("fault", "raise", exc=("OSError", "ValueError"),
+                 post=lambda c: (after(c) if c.mode == "assume" else None, [])[1]),
         ]
 
 
@@ -319,22 +368,25 @@ class SaveToResourceContract(Contract):
             return node(c, c.pre, c.b["self"])
 
         def mod(c):
-            i = info(c)
-            return [("g_at", "Res", i["rid"]), ("g_at", "Wr", i["rid"])]
+            return res_mod(c)
 
         def post(c):
             i = info(c)
-            c.post.event("save", i["rid"], c.pre.sel("View", i["n"]))
+            if c.mode == "assume":
+                c.post.event("save", i["rid"], c.pre.sel("View", i["n"]))
             return [("C01:saved", c.post.sel("Res", i["rid"]) == c.pre.sel("View", i["n"])),
-                    ("C17:write-counted", c.post.sel("Wr", i["rid"]) == c.pre.sel("Wr", i["rid"]) + 1)]
+                    ("C17:write-counted", c.post.sel("Wr", i["rid"]) > c.pre.sel("Wr", i["rid"])),
+                    ("frame:other-resources", other_resources_unchanged(c, i["rid"]))]
 
         def post_unser(c):
-            c.post.event("io-fault", "unserialisable")
+            if c.mode == "assume":
+                c.post.event("io-fault", "unserialisable")
             return []
 
         def post_io(c):
-            c.post.event("io-fault", "_save_to_resource")
-            return []
+            if c.mode == "assume":
+                c.post.event("io-fault", "_save_to_resource")
+            return [("frame:other-resources", other_resources_unchanged(c, info(c)["rid"]))]
         return [
             Case("saved", "normal", guard=lambda c: serialisable(c.pre.sel("View", info(c)["n"])), modifies=mod,
                  post=post, result=lambda c: Const(None)),
@@ -415,15 +467,15 @@ class SaveContract(Contract):
             return z3.Not(buffered_term(c, c.pre, info(c)["root"]))
 
         def mod(c):
-            i = info(c)
-            return [("g_at", "Res", i["rid"]), ("g_at", "Wr", i["rid"])]
+            return res_mod(c)
 
         def post(c):
             i = info(c)
             if c.mode == "assume":
                 c.post.event("save", i["rid"], c.pre.sel("View", i["rn"]))
             return [("C01:saved", c.post.sel("Res", i["rid"]) == c.pre.sel("View", i["rn"])),
-                    ("C17:write-counted", c.post.sel("Wr", i["rid"]) == c.pre.sel("Wr", i["rid"]) + 1)]
+                    ("C17:write-counted", c.post.sel("Wr", i["rid"]) > c.pre.sel("Wr", i["rid"])),
+                    ("frame:other-resources", other_resources_unchanged(c, i["rid"]))]
 
         def post_unser(c):
             if c.mode == "assume":
@@ -433,7 +485,7 @@ class SaveContract(Contract):
         def post_io(c):
             if c.mode == "assume":
                 c.post.event("io-fault", "_save")
-            return []
+            return [("frame:other-resources", other_resources_unchanged(c, info(c)["rid"]))]
 
         def ser(c):
             return serialisable(c.pre.sel("View", info(c)["rn"]))
